@@ -256,6 +256,20 @@ func (p *Program) VerifyFunc(fi *FuncInfo) (res *FuncResult) {
 		e.Ctx.AddObligation(res.Func, "vacuity", res.Func+"/vacuity/returns", True, False, e.pos(fi.Decl.Pos())).MustFail = true
 	} else {
 		e.canary(final, "exit", fi.Decl.Body.Rbrace)
+		// every mutex the function locks is released again on every path that returns (locks are otherwise not
+		// modelled: execution is sequential; a lock still held at return blocks every later handler)
+		{
+			var texts []string
+			for t := range e.lockObj {
+				texts = append(texts, t)
+			}
+			sortStrings(texts)
+			for _, t := range texts {
+				if v, ok := final.Vars[e.lockObj[t]]; ok {
+					e.Ctx.AddObligation(res.Func, "lock", fmt.Sprintf("%s/lock/released/%s", res.Func, t), final.PC, Eq(v, Int(0)), e.pos(fi.Decl.Body.Rbrace))
+				}
+			}
+		}
 		// ghost assignments of the contract (`ghostset`), executed at exit
 		if len(c.GhostSets) > 0 {
 			gpost := final.Clone()
@@ -607,6 +621,19 @@ func (e *Exec) addAxioms(res *FuncResult) {
 func (e *Exec) initCallHistory(st *State, fi *FuncInfo) {
 	e.calledObj = map[string]types.Object{}
 	e.lastRetObj = map[string][]types.Object{}
+	e.lockObj = map[string]types.Object{}
+	ast.Inspect(fi.Decl.Body, func(n ast.Node) bool {
+		c, ok := n.(*ast.CallExpr)
+		if !ok {
+			return true
+		}
+		if text, d := lockCall(fi.Pkg.TypesInfo, c); d > 0 && e.lockObj[text] == nil {
+			o := e.newPseudo("lockdepth_"+sanitize(text), types.Typ[types.Int])
+			e.lockObj[text] = o
+			st.Vars[o] = Int(0)
+		}
+		return true
+	})
 	e.callAsserted = map[*CallAssert]bool{}
 	info := fi.Pkg.TypesInfo
 	ast.Inspect(fi.Decl.Body, func(n ast.Node) bool {
@@ -733,4 +760,25 @@ func (e *Exec) replayPlan(fi *FuncInfo, recv Term, args []Term) *ReplayPlan {
 func (e *Exec) privateElsewhere(k string) bool {
 	owner := e.P.Private[frameLabel(k)]
 	return owner != "" && e.Fn != nil && e.Fn.Pkg != nil && owner != e.Fn.Pkg.PkgPath
+}
+
+
+// lockCall: c is X.Lock()/X.RLock() (+1) or X.Unlock()/X.RUnlock() (-1) of a sync.Mutex / sync.RWMutex; returns the
+// text of X and the direction (0: not a lock operation).
+func lockCall(info *types.Info, c *ast.CallExpr) (string, int) {
+	sel, ok := c.Fun.(*ast.SelectorExpr)
+	if !ok {
+		return "", 0
+	}
+	fn, ok := info.Uses[sel.Sel].(*types.Func)
+	if !ok || fn.Pkg() == nil || fn.Pkg().Path() != "sync" {
+		return "", 0
+	}
+	switch fn.Name() {
+	case "Lock", "RLock":
+		return types.ExprString(sel.X), 1
+	case "Unlock", "RUnlock":
+		return types.ExprString(sel.X), -1
+	}
+	return "", 0
 }
